@@ -1,10 +1,11 @@
 #!/bin/bash
 # tools/verify_seed.sh <id> : confirm a seeded change in /tmp/mut/<id>: tests pass with it, demo fails with it, demo passes without it.
 id=$1; d=/tmp/mut/$id; cd $d || exit 9
+PY=${PY:-/venv/bin/python}    # demos that need NumPy: PY=/tmp/mut/npvenv/bin/python
 out=$d/verify.log; : > $out
 git checkout -q -- . ; 
-timeout 300 /venv/bin/python demo.py > $d/demo_without.log 2>&1; r0=$?
+timeout 300 $PY demo.py > $d/demo_without.log 2>&1; r0=$?
 git apply patch.diff || { echo "patch does not apply" >> $out; exit 8; }
 MPYC_NONUMPY=1 timeout 900 /venv/bin/python -m pytest -q -p no:cacheprovider tests > $d/tests_with.log 2>&1; rt=$?
-timeout 300 /venv/bin/python demo.py > $d/demo_with.log 2>&1; r1=$?
+timeout 300 $PY demo.py > $d/demo_with.log 2>&1; r1=$?
 echo "id=$id demo_without_exit=$r0 tests_with_exit=$rt ($(tail -1 $d/tests_with.log)) demo_with_exit=$r1" | tee -a $out
